@@ -157,6 +157,8 @@ theorem basePrice_nonneg (s : State) (t : TxIn) (price : Int) (h : basePrice s t
   unfold basePrice at h
   simp only at h
   split at h
+  · cases h
+  split at h
   · cases h; exact Int.le_refl _
   · split at h
     · cases h
